@@ -36,7 +36,7 @@
 #define MAXTP 4
 enum { M_R = 0, M_W = 1, M_RW = 2 };
 enum { PF_DONT_TRACK = 1 };
-enum { OP_TASK, OP_FLUSH, OP_FLUSHALL, OP_WAIT, OP_CHECK };
+enum { OP_TASK, OP_FLUSH, OP_FLUSHALL, OP_WAIT, OP_CHECK, OP_PAUSE };
 #define V_NONE ((int64_t)0x7ff0dead7ff0deadLL)
 
 typedef struct {
@@ -281,10 +281,10 @@ static void load_script(const char *path) {
             if (fscanf(f, "%d %d %d %d %d %d %d", &t->id, &t->tp, &t->prio, &t->place, &t->sleep_us, &t->nchild, &t->np) != 7 || t->id != NT || t->np < 1 || t->np > MAXP) die("task");
             for (int k = 0; k < t->np; k++) if (fscanf(f, "%d %d %d", &t->tile[k], &t->mode[k], &t->pfl[k]) != 3 || t->tile[k] < 0 || t->tile[k] >= NTL) die("task param");
             OPS[NOPS].kind = OP_TASK; OPS[NOPS].a = NT; NOPS++; NT++;
-        } else if (!strcmp(w, "flush") || !strcmp(w, "flushall") || !strcmp(w, "wait")) {
+        } else if (!strcmp(w, "flush") || !strcmp(w, "flushall") || !strcmp(w, "wait") || !strcmp(w, "pause")) {
             if (NOPS == capO) { capO *= 2; OPS = realloc(OPS, capO * sizeof *OPS); }
             memset(&OPS[NOPS], 0, sizeof *OPS);
-            OPS[NOPS].kind = !strcmp(w, "flush") ? OP_FLUSH : !strcmp(w, "flushall") ? OP_FLUSHALL : OP_WAIT;
+            OPS[NOPS].kind = !strcmp(w, "flush") ? OP_FLUSH : !strcmp(w, "flushall") ? OP_FLUSHALL : !strcmp(w, "wait") ? OP_WAIT : OP_PAUSE;
             if (fscanf(f, "%d", &OPS[NOPS].a) != 1) die("op arg");
             NOPS++;
         } else if (!strcmp(w, "check")) {
@@ -442,6 +442,9 @@ int main(int argc, char **argv) {
             if (TL[g].kind == 1 && TL[g].owner % world == myrank && !TL[g].nt_retained) { PARSEC_OBJ_RETAIN(h); TL[g].nt_retained = 1; }
             parsec_dtd_data_flush(TP[TL[g].tp], h); nflush++; break; }
         case OP_FLUSHALL: parsec_dtd_data_flush_all(TP[op->a], DC[op->a]); nflush++; break;
+        case OP_PAUSE:      /* the inserting thread idles (milliseconds) so that inserted work can drain before the next operation */
+            for (int ms = 0; ms < op->a; ms += 10) { usleep(10000); VF_TICK(); }
+            break;
         case OP_WAIT:
             if (!started) { parsec_context_start(pctx); started = 1; }
             parsec_taskpool_wait(TP[op->a]); nwaits++; VF_TICK(); break;
